@@ -144,6 +144,15 @@ def scenarios(rng: random.Random, tier: str):
             evs.append(rng.choice([f"adv {rng.choice([1, idle, idle + 1, dwa + 1])}", "rx 0 " + nodegen.dwa(nxt(), nxt()),
                                    "rx 0 " + nodegen.dwr(nxt(), nxt())]))
         out.append(line + " | " + " | ".join(evs))
+    # per-peer timers on dialled and accepted connections whose peer announces its identity in another letter case than
+    # the configured one (host names compare case-insensitively): the peer's timers apply all the same
+    for spell in ("PEER1.X", "Peer1.x", "peer1.x"):
+        for p_idle, p_dwa, n_idle, n_dwa in ((2, 1, 30, 4), (5, 2, 1, 1)) if tier == "quick" else ((2, 1, 30, 4), (5, 2, 1, 1), (3, 3, 10, 10), (1, 2, 7, 1)):
+            tail = [f"adv {p_idle - 1}" if p_idle > 1 else "tick", "adv 1", "adv 1", f"adv {p_dwa}", "adv 1", f"adv {max(n_idle, n_dwa) + 1}", "tick"]
+            line = cfg_line(n_idle, n_dwa, p_idle, p_dwa, persistent=1)
+            out.append(line + " | " + " | ".join(["start ok", "rx 0 " + nodegen.cea(2001, spell, 2001, 268435464)] + tail))
+            line = cfg_line(n_idle, n_dwa, p_idle, p_dwa)
+            out.append(line + " | " + " | ".join(["start", "acc", "rx 0 " + nodegen.cer(spell, "4", nxt(), nxt())] + tail))
     # a connection that was lost for another reason, re-established, and then times out on the watchdog:
     # the reason recorded must be the watchdog timeout (not the stale earlier one)
     for idle, dwa in ((2, 1), (3, 2)) if tier == "quick" else ((1, 1), (2, 1), (3, 2), (5, 3), (2, 5)):
